@@ -29,9 +29,9 @@ func init() {
 		Technique: "property-based testing: token-soup and mutation generators + bounded-exhaustive enumeration, totality oracle in a sandboxed worker; native fuzzing in the thorough tier",
 		Rule: "inputs: (a) random sequences of 0-40 fragments over a ~130-fragment dictionary (all delimiters, operators, keywords, quotes, CR/LF, invalid UTF-8), " +
 			"(b) every prefix, single-fragment deletion and dictionary insertion at fragment boundaries of the repository's test templates and of generated programs, " +
-			"(c) every string of <= K fragments over a 16-fragment core alphabet, (e) legal nesting 10..3000 levels deep of every bracket and body-carrying tag, complete and truncated; each parsed through parse.Parse, stick.New(nil).Parse and twig.New(nil).Parse. " +
+			"(c) every string of <= K fragments over a 16-fragment core alphabet, (f) four focused families (verbatim sections, comments, interpolated strings, tag heads): every opening spelling x every body of <= 3 (thorough 4; tag heads 2/3) fragments over a 12-29 fragment alphabet x every closing spelling, (e) legal nesting 10..3000 levels deep of every bracket and body-carrying tag, complete and truncated; each parsed through parse.Parse, stick.New(nil).Parse and twig.New(nil).Parse. " +
 			"Oracle: parser returns a tree xor an error within the deadline; panic, worker death (lexer goroutine), confirmed hang or memory blow-up is a violation. " +
-			"Non-trivial: input contains an opening delimiter and is either rejected with an error or was derived by mutating a well-formed template; distinct by content.",
+			"Non-trivial: input contains an opening delimiter and is either rejected with an error or was derived by mutating a well-formed template or belongs to a focused family; distinct by content.",
 		Assumptions: []string{
 			"hang = no answer within 2 s, confirmed twice in a fresh worker with a 10 s deadline and a stack dump showing a stick frame",
 			"nesting depth of generated inputs stays far below the ~10^4 levels the statement excludes",
@@ -188,6 +188,66 @@ func init() {
 					sub.Check(c, &c01Case{Env: envs[di%3], Src: sb.BS(src), How: "deep"})
 				}
 			}
+		}
+
+		// (f) focused bounded-exhaustive families: the sub-languages in which
+		// the lexer switches mode (raw sections, comments, interpolated
+		// strings), every opening spelling x every body of <= K fragments over a
+		// small hostile alphabet x every closing spelling.
+		type family struct {
+			name          string
+			opens, closes []string
+			alpha         []string
+			k             int
+		}
+		fams := []family{
+			{"verbatim", []string{"{% verbatim %}", "{%- verbatim %}", "{%verbatim-%}", "{%- verbatim -%}", "a {%-\tverbatim\n%}"},
+				[]string{"", "{% endverbatim %}", "{%- endverbatim -%}", "{% endverbatim", "{%endverbatim%} b"},
+				[]string{"{%", "{%-", "{{", "{#", "}}", "%}", "#}", "$", "'x", "\"", "x", " ", "endverbatim", "verbatim"}, c.Pick(3, 4)},
+			{"comment", []string{"{#", "{#-", "a{# "}, []string{"", "#}", "-#}", " #} b"},
+				[]string{"#}", "-#}", "{#", "#", "}", "-", " ", "\n", "{{", "{%", "%}", "x"}, c.Pick(3, 4)},
+			{"interp", []string{"{{ \"", "{{ \"a", "{% set v = \"", "{{ f(\""}, []string{"", "\" }}", "\") }}", "\" %}", "}\" }}"},
+				[]string{"#{", "}", "\"", "'", "a", " ", "^", "\\", "{{", "}}", "#", "{", "1.", "|f", "("}, c.Pick(3, 4)},
+			{"tagname", []string{"{%", "{%-", "{% ", "x{%\n"}, []string{"", "%}", " %}", "-%}", " %}y{% endif %}", " %}y{% endfor %}", " %}y{% endblock %}"},
+				[]string{"if", "for", "in", "block", "set", "=", "x", ",", " ", "'t'", "extends", "include", "with", "only", "embed", "macro", "(", ")", "filter", "|", "import", "as", "from", "use", "do", "else", "elseif", "endif", "$"}, c.Pick(2, 3)},
+		}
+		fi := 0
+		for _, fam := range fams {
+			complete := true
+			var bodies []string
+			var build func(prefix string, d int)
+			build = func(prefix string, d int) {
+				bodies = append(bodies, prefix)
+				if d == fam.k {
+					return
+				}
+				for _, a := range fam.alpha {
+					build(prefix+a, d+1)
+				}
+			}
+			build("", 0)
+			var srcs []string
+			for _, o := range fam.opens {
+				for _, cl := range fam.closes {
+					for _, b := range bodies {
+						fi++
+						if !c.Mine(fi / 256) {
+							continue
+						}
+						srcs = append(srcs, o+b+cl)
+						if len(srcs) >= 256 {
+							if !batch(c, envs[(fi/256)%3], srcs, "family:"+fam.name) {
+								complete = false
+							}
+							srcs = srcs[:0]
+						}
+					}
+				}
+			}
+			if !batch(c, envs[(fi/256)%3], srcs, "family:"+fam.name) {
+				complete = false
+			}
+			c.Ev.S.Exhaustive["family_"+fam.name+"_body<="+itoa(fam.k)] = complete && !c.Expired() && !sub.Failed(c)
 		}
 
 		// (a) token soups.
